@@ -5,11 +5,37 @@ import nv
 import oracle
 
 
+def gen_objective_case(rng, ce, cons=None):
+    """an optimisation family: z = x + y (or x - y) linked by an equality, two random linear inequalities on (x, y); several
+    improving solutions and constraints that become entailed at the root after a tightening"""
+    xs = (0, rng.randint(1, 3))
+    ys = (0, rng.randint(2, 4))
+    sign = rng.choice([1, 1, -1])
+    shr = [xs, ys, (-6, 10)]
+    props = [([0, 1, 2], "affine_eq", [1, sign, -1, 0])]
+    for _ in range(2):
+        a, b = rng.randint(1, 3), rng.randint(1, 3)
+        alg = rng.choice(["affine_geq", "affine_leq"])
+        k = rng.randint(1, a * xs[1] + b * ys[1])
+        props.append(([0, 1], alg, [a, b, k]))
+    rng.shuffle(props)
+    if rng.random() < 0.3:  # the objective as an alias with an offset
+        prob = nv.Prob(shr, [0, 1, 2, 2], [0, 0, 0, rng.randint(-2, 2)], props)
+        v = 3
+    else:
+        prob = nv.Prob(shr, props=props)
+        v = 2
+    cfg = ce.gen_cfg(rng, prob, cons=cons)
+    return {"op": "opt", "problem": prob.to_json(), "cfg": ce.cfg_json(cfg), "theme": "objective", "v": v, "minimize": rng.random() < 0.5}
+
+
 def gen_cases(rng, n, with_opt=True, cons=None, limit_prob=0.0):
     import corr_engine as ce
 
     cases = []
     for _ in range(n):
+        if with_opt and rng.random() < 0.2:
+            cases.append(gen_objective_case(rng, ce, cons))
         p, theme = ce.gen_problem(rng)
         cfg = ce.gen_cfg(rng, p, cons=cons)
         c = {"op": "solve", "problem": p.to_json(), "cfg": ce.cfg_json(cfg), "theme": theme}
@@ -36,6 +62,11 @@ def stats_laws(c, res):
                 pass
             if st["ALG_BC_NB"] != 1 + st["SOLVER_CHOICE_NB"] + st["SOLVER_BACKTRACK_NB"]:
                 bad.append(f"ALG_BC_NB {st['ALG_BC_NB']} != 1 + CHOICE {st['SOLVER_CHOICE_NB']} + BACKTRACK {st['SOLVER_BACKTRACK_NB']}")
+        if plain_bc:
+            # every pass ends in exactly one of: a solution, a decision, a failure (C17_solveAll / SearchLaw)
+            if st["ALG_BC_NB"] != st["SOLVER_SOLUTION_NB"] + st["SOLVER_CHOICE_NB"] + st["PROPAGATOR_INCONSISTENCY_NB"]:
+                bad.append(f"ALG_BC_NB {st['ALG_BC_NB']} != SOLUTION {st['SOLVER_SOLUTION_NB']} + CHOICE {st['SOLVER_CHOICE_NB']} + "
+                           f"INCONSISTENCY {st['PROPAGATOR_INCONSISTENCY_NB']}: a failed pass was not counted (or counted twice)")
     if st["PROPAGATOR_FILTER_NO_CHANGE_NB"] + st["PROPAGATOR_INCONSISTENCY_NB"] > st["PROPAGATOR_FILTER_NB"]:
         bad.append("NO_CHANGE + INCONSISTENCY exceeds FILTER_NB")
     if st["PROPAGATOR_ENTAILMENT_NB"] > st["PROPAGATOR_FILTER_NB"]:
